@@ -1533,3 +1533,19 @@ Definition postprocess_block (ctx : option N) (children : list node) : res (list
   pp_list (4 * total_size children + 8) ctx true true children.
 
 End Postprocess.
+
+(* ================================================================== the footnote pass seen from one block
+   (find_footnote_references of parser/mod.rs; the whole pass is Model/Footnotes.v): a FootnoteReference whose
+   folded name is not the folded name of a registered definition becomes the Text `[^name]` (same position);
+   the others get ref_num / ix / name from the document-wide numbering, which this per-block view leaves alone.
+   `defs` = the names of the definitions reachable from the root without entering a definition. *)
+Fixpoint fn_resolve (fold : bytes -> bytes) (defs : list bytes) (n : node) : node :=
+  match n with
+  | Node v sp ch =>
+    match v with
+    | FootnoteReference name _ _ =>
+      if existsb (fun d => bytes_eqb (normalize_label fold d true) (normalize_label fold name true)) defs then n
+      else Node (Text ([x5b; x5e] ++ name ++ [x5d])) sp ch
+    | _ => Node v sp (map (fn_resolve fold defs) ch)
+    end
+  end.
